@@ -92,6 +92,12 @@ def main():
     mode = sys.argv[1]
     scratch = os.environ["VERIF_SCRATCH"]
     sys.path.insert(0, scratch)
+    if os.environ.get("VERIF_COVERAGE"):     # development aid, see vlib/cover.py
+        sys.path.insert(1, os.path.dirname(os.path.dirname(os.path.abspath(__file__))))
+        from vlib import cover
+        cover.start(scratch)
+        import atexit
+        atexit.register(cover.dump)
     import jellyfysh
     assert os.path.realpath(jellyfysh.__file__).startswith(os.path.realpath(scratch))
     from jellyfysh.base.exceptions import EndOfRun
